@@ -138,6 +138,74 @@ def _container_keys_verbatim(ctx, prog, O):
         ctx.check(isinstance(k, ast.Name) and k.id == key, m, calls[0], f"Options.{mname} passes its key unchanged", f"Options.{mname} hands '{canon(k)}' to the underlying dict instead of the name it was given", construct=f"Options.{mname} key {canon(k)[:40]}")
 
 
+def caller_data_private(ctx, prog, R):
+    """No in-place modification through an alias of the caller's arrays or options dict (shared by C20-R5 and C07: a
+    caller's array that BADS has overwritten is a channel from one run to the next one built from the same arrays)."""
+    O = R.options_cls
+    init = R.bads_init
+    oinit = O.find_method("__init__")
+    uparam = [p for p in oinit.params if p != "self"][-1]
+    iparams = [p for p in init.params if p not in ("self", "fun", "non_box_cons")]
+    seeds = {p: frozenset({f"A:{p}"}) for p in iparams}
+    viol, ifl = alias_violations(prog, init, seeds)
+    for node, al, what, tgt in viol:
+        ctx.fail(init, node, f"{what} on '{tgt}', which may alias the caller's {al}: BADS modifies the caller's data", construct=f"in-place {what} on alias of {al[0][2:]}")
+    if not viol:
+        ctx.ok(init, init.node, f"constructor: no in-place write through aliases of {iparams}")
+    # callees receiving aliases
+    for call, targets in prog.calls_in(init):
+        for t in targets:
+            if not isinstance(t, FunctionInfo) or t is init:
+                continue
+            b = bind_args(t, call)
+            st = ifl.state_before(call) or {}
+            sub = {}
+            for p, e in b.items():
+                tg = ifl.policy.eval(e, st, ifl)
+                if any(x.startswith("A:") for x in tg):
+                    sub[p] = tg
+            if not sub:
+                continue
+            v2, f2 = alias_violations(prog, t, sub)
+            for node, al, what, tgt in v2:
+                ctx.fail(t, node, f"{what} on '{tgt}', which may alias the caller's {al} (passed by the constructor): the caller's array is modified", construct=f"in-place {what} on alias of {al[0][2:]} in {ctx.fname(t)}")
+            if not v2:
+                ctx.ok(t, call, f"{t.short}: no in-place write through {sorted(sub)}")
+            # one more level: attributes stored from aliases and mutated in other methods are covered by copies
+    # results of the validator stored in BADS attributes may alias the caller's arrays: the transformer copies them
+    T = R.transformer
+    tinit = T.find_method("__init__")
+    tparams = [p for p in tinit.params if p not in ("self", "D")]
+    v3, f3 = alias_violations(prog, tinit, {p: frozenset({f"A:{p}"}) for p in tparams})
+    for node, al, what, tgt in v3:
+        ctx.fail(tinit, node, f"{what} on '{tgt}', which may alias the transformer's argument {al}", construct=f"in-place {what} on alias of {al[0][2:]} in {tinit.short}")
+    # attributes of the transformer that are mutated in place must have been assigned from copies
+    st_end = f3.state_at_exit() or {}
+    for m in T.methods.values():
+        for t, v, s, k in iter_stores(m.node):
+            if isinstance(t, ast.Subscript) and self_attr_of(t) and isinstance(store_base(t), ast.Attribute):
+                a = "self." + self_attr_of(t)
+                # tags at the point of first assignment in __init__
+                tags = set()
+                for t2, v2, s2, k2 in iter_stores(tinit.node):
+                    if canon(t2) == a and v2 is not None and k2 == "assign":
+                        tg = f3.tags(v2)
+                        if tg:
+                            tags |= set(tg)
+                al = sorted(x for x in tags if x.startswith("A:"))
+                if al:
+                    ctx.fail(m, s, f"in-place store into {a}, which was assigned from the caller's {al} without a copy", construct=f"in-place store into uncopied {a}")
+                else:
+                    ctx.ok(m, s, f"{a} is a private copy")
+    # the options dict: Options copies items; no mutation of the user's dict
+    ov, of_ = alias_violations(prog, oinit, {uparam: frozenset({f"A:{uparam}"})})
+    for node, al, what, tgt in ov:
+        ctx.fail(oinit, node, f"{what} on '{tgt}': the caller's options dict is modified", construct=f"in-place {what} on the user's options dict")
+    if not ov:
+        ctx.ok(oinit, oinit.node, "Options.__init__ copies the user's items and never mutates the dict")
+
+
+
 def check(ctx):
     prog = ctx.prog
     R = roles_of(prog)
@@ -306,65 +374,7 @@ def check(ctx):
 
     # ------------------------------------------------------------------ R5
     ctx.rule("R5", "no in-place modification through an alias of the caller's arrays or options dict", floor=3)
-    iparams = [p for p in init.params if p not in ("self", "fun", "non_box_cons")]
-    seeds = {p: frozenset({f"A:{p}"}) for p in iparams}
-    viol, ifl = alias_violations(prog, init, seeds)
-    for node, al, what, tgt in viol:
-        ctx.fail(init, node, f"{what} on '{tgt}', which may alias the caller's {al}: BADS modifies the caller's data", construct=f"in-place {what} on alias of {al[0][2:]}")
-    if not viol:
-        ctx.ok(init, init.node, f"constructor: no in-place write through aliases of {iparams}")
-    # callees receiving aliases
-    for call, targets in prog.calls_in(init):
-        for t in targets:
-            if not isinstance(t, FunctionInfo) or t is init:
-                continue
-            b = bind_args(t, call)
-            st = ifl.state_before(call) or {}
-            sub = {}
-            for p, e in b.items():
-                tg = ifl.policy.eval(e, st, ifl)
-                if any(x.startswith("A:") for x in tg):
-                    sub[p] = tg
-            if not sub:
-                continue
-            v2, f2 = alias_violations(prog, t, sub)
-            for node, al, what, tgt in v2:
-                ctx.fail(t, node, f"{what} on '{tgt}', which may alias the caller's {al} (passed by the constructor): the caller's array is modified", construct=f"in-place {what} on alias of {al[0][2:]} in {ctx.fname(t)}")
-            if not v2:
-                ctx.ok(t, call, f"{t.short}: no in-place write through {sorted(sub)}")
-            # one more level: attributes stored from aliases and mutated in other methods are covered by copies
-    # results of the validator stored in BADS attributes may alias the caller's arrays: the transformer copies them
-    T = R.transformer
-    tinit = T.find_method("__init__")
-    tparams = [p for p in tinit.params if p not in ("self", "D")]
-    v3, f3 = alias_violations(prog, tinit, {p: frozenset({f"A:{p}"}) for p in tparams})
-    for node, al, what, tgt in v3:
-        ctx.fail(tinit, node, f"{what} on '{tgt}', which may alias the transformer's argument {al}", construct=f"in-place {what} on alias of {al[0][2:]} in {tinit.short}")
-    # attributes of the transformer that are mutated in place must have been assigned from copies
-    st_end = f3.state_at_exit() or {}
-    for m in T.methods.values():
-        for t, v, s, k in iter_stores(m.node):
-            if isinstance(t, ast.Subscript) and self_attr_of(t) and isinstance(store_base(t), ast.Attribute):
-                a = "self." + self_attr_of(t)
-                # tags at the point of first assignment in __init__
-                tags = set()
-                for t2, v2, s2, k2 in iter_stores(tinit.node):
-                    if canon(t2) == a and v2 is not None and k2 == "assign":
-                        tg = f3.tags(v2)
-                        if tg:
-                            tags |= set(tg)
-                al = sorted(x for x in tags if x.startswith("A:"))
-                if al:
-                    ctx.fail(m, s, f"in-place store into {a}, which was assigned from the caller's {al} without a copy", construct=f"in-place store into uncopied {a}")
-                else:
-                    ctx.ok(m, s, f"{a} is a private copy")
-    # the options dict: Options copies items; no mutation of the user's dict
-    ov, of_ = alias_violations(prog, oinit, {uparam: frozenset({f"A:{uparam}"})})
-    for node, al, what, tgt in ov:
-        ctx.fail(oinit, node, f"{what} on '{tgt}': the caller's options dict is modified", construct=f"in-place {what} on the user's options dict")
-    if not ov:
-        ctx.ok(oinit, oinit.node, "Options.__init__ copies the user's items and never mutates the dict")
-
+    caller_data_private(ctx, prog, R)
     # ------------------------------------------------------------------ R6
     ctx.rule("R6", "no mutable state shared between instances", floor=3)
     _shared_state(ctx, prog, R)
